@@ -246,4 +246,79 @@ theorem timing_line_roundtrip (R : Render) :
         ',' ∉ R.repr (svCode b.multiplier) → readSv (R.line (writeSv b)) = .ok b) :=
   ⟨fun b a c d e f => readBpm_writeBpm R b a c d e f, fun b a c d e f => readSv_writeSv R b a c d e f⟩
 
+/-! ## the whole `[HitObjects]` section of a written chart -/
+
+theorem mem_insertBy {α} (le : α → α → Bool) (x a : α) (l : List α) : a ∈ insertBy le x l ↔ a = x ∨ a ∈ l := by
+  induction l with
+  | nil => simp [insertBy]
+  | cons y ys ih =>
+    unfold insertBy
+    split
+    · simp
+    · simp only [List.mem_cons, ih]
+      constructor
+      · rintro (h | h | h)
+        · exact Or.inr (Or.inl h)
+        · exact Or.inl h
+        · exact Or.inr (Or.inr h)
+      · rintro (h | h | h)
+        · exact Or.inr (Or.inl h)
+        · exact Or.inl h
+        · exact Or.inr (Or.inr h)
+
+theorem mem_isort {α} (le : α → α → Bool) (a : α) (l : List α) : a ∈ isort le l ↔ a ∈ l := by
+  induction l with
+  | nil => simp [isort]
+  | cons y ys ih =>
+    have : isort le (y :: ys) = insertBy le y (isort le ys) := rfl
+    rw [this, mem_insertBy, ih]; simp
+
+/-- **Every chart, any number of notes, any interleaving, every key count 1..256**: the object lines that `write`
+emits (holds and hits merged, sorted by time), classified by counting separators and read back, are exactly the hits
+and holds of `quantize c` — columns kept, times truncated, nothing lost, nothing invented, nothing misclassified. -/
+theorem objects_section_roundtrip (R : Render) (c : Chart)
+    (hk : 0 < pyTrunc c.md.circleSize) (hk' : pyTrunc c.md.circleSize ≤ 256)
+    (hhits : ∀ h ∈ c.hits, 0 ≤ h.column ∧ h.column < pyTrunc c.md.circleSize ∧ ',' ∉ h.file ∧ ':' ∉ h.file)
+    (hholds : ∀ h ∈ c.holds, 0 ≤ h.column ∧ h.column < pyTrunc c.md.circleSize ∧ ',' ∉ h.file ∧ ':' ∉ h.file) :
+    mapE (fun s => readHit s (pyTrunc c.md.circleSize))
+        ((((sortedObjs c).map (writeObj (pyTrunc c.md.circleSize))).map R.line).filter isHit)
+      = .ok (quantize R.uni c).hits ∧
+    mapE (fun s => readHold s (pyTrunc c.md.circleSize))
+        ((((sortedObjs c).map (writeObj (pyTrunc c.md.circleSize))).map R.line).filter isHold)
+      = .ok (quantize R.uni c).holds := by
+  apply readObjs_writeObjs R _ hk hk'
+  intro o ho
+  unfold sortedObjs at ho
+  rw [mem_isort] at ho
+  simp only [List.mem_append, List.mem_map] at ho
+  rcases ho with ⟨h, hh, rfl⟩ | ⟨h, hh, rfl⟩
+  · exact hholds h hh
+  · exact hhits h hh
+
+example : (mapE (fun s => readHit s 4) ((((sortedObjs { hits := [{ offset := 7/2, column := 1 }], holds := [{ offset := 1, column := 0, length := 3/2 }] }).map
+    (writeObj 4)).map intRender.line).filter isHit)).toOption = some [{ offset := 3, column := 1 }] := by decide +kernel
+
+/-! ## the `[TimingPoints]` section and the sample events of a written chart -/
+
+/-- the timing lines of `write c`, classified and read back, are the tempo points and scroll velocities of
+`quantize c` (bpm and SV values exactly, by `code_value`) — any number of points; hypotheses only on the renderer -/
+theorem timing_section_roundtrip (R : Render) (c : Chart)
+    (hb : ∀ b ∈ c.bpms, BpmOk R b) (hs : ∀ b ∈ c.svs, SvOk R b) :
+    mapE readSv (((c.bpms.map writeBpm ++ c.svs.map writeSv).map R.line).filter isSliderVelocity)
+      = .ok (quantize R.uni c).svs ∧
+    mapE readBpm (((c.bpms.map writeBpm ++ c.svs.map writeSv).map R.line).filter isTimingPoint)
+      = .ok (quantize R.uni c).bpms :=
+  readTiming_writeTiming R c.bpms c.svs hb hs
+
+/-- the sample events `write` emits, selected by their `Sample` prefix and read back, are the quantized samples -/
+theorem samples_section_roundtrip (R : Render) (ss : List Sample) (hf : ∀ s ∈ ss, ',' ∉ s.file) :
+    mapE readSample (((ss.map writeSample).map R.line).filter (startsWith pSample)) = .ok (ss.map qSample) := by
+  induction ss with
+  | nil => rfl
+  | cons s t ih =>
+    have r := readSample_writeSample R s (hf s (by simp))
+    have hp : startsWith pSample (R.line (writeSample s)) = true := by
+      rw [line_writeSample]; simp [startsWith, pSample, joinWith]
+    simp only [List.map_cons, List.filter_cons, hp, if_true, mapE, r, ih (fun s' hs' => hf s' (by simp [hs']))]
+
 end Reamber.Osu
